@@ -5,3 +5,9 @@ open A2l.Tree
 #print axioms parseType_pos
 #print axioms parseType_log_mono
 #print axioms strict_log_only_warnings
+-- the statements as first written, refuted
+#print axioms parseFile_no_panic_as_written_false
+#print axioms parseType_no_panic_as_written_false
+#print axioms parseType_no_panic_without_hty_false
+#print axioms parseType_log_mono_as_written_false
+#print axioms strict_log_only_warnings_as_written_false
